@@ -10,17 +10,16 @@ from vlib import common as C
 
 ID = 'C20'
 READY = True
-LEVEL_TEXT = ('Partial (full for the clauses the current code satisfies): Coq theorems over a hand-written state-machine model of '
-              'VTKWriter (init / add_nodal_field / add_cell_field / add_sphere / add_contact_edges / write, with write returning the '
-              'mutated state) and an independent strict reader of the legacy-VTK subset: for every reachable writer state with '
-              '(no spheres or all nodes written) and (no cell fields together with contact edges) the file parses to exactly the '
-              'supplied dataset and declared POINTS/CELLS/size/CELL_TYPES/POINT_DATA/CELL_DATA counts equal the records, '
-              'connectivity refers to written points, every array has one record per point/cell; write() leaves the state '
-              'unchanged without spheres and any number of writes is identical when there are no spheres or no nodal fields. '
-              'The three remaining clauses are proved FALSE of the faithful model (C20_double_write_refuted, '
-              'C20_sphere_radius_count_refuted, C20_cell_data_count_refuted) and reproduce on the code as known findings F9-F11. '
-              'The model is tied to the source by token-for-token comparison with the files the implementation writes; the Coq '
-              'reader and consistency check are also run on those files.')
+LEVEL_TEXT = ('Full. Coq theorems over a hand-written state-machine model of VTKWriter (init / add_nodal_field / add_cell_field / '
+              'add_sphere / add_contact_edges / write) that follows the repaired code (fix commits 2cde078, 34184b3, 07417cb) and an '
+              'independent strict reader of the legacy-VTK subset: for EVERY writer state satisfying the invariant that init establishes '
+              'and every operation keeps (any element order, any nodal and cell fields, any number of spheres and contact edges) the file '
+              'parses to exactly the supplied dataset (C20_roundtrip_wellformed), declared POINTS/CELLS/size/CELL_TYPES/POINT_DATA/CELL_DATA '
+              'counts equal the records, connectivity refers to written points (given that the user\'s mesh / edge ids do: in_range), every '
+              'array has one record per point/cell; write() returns the writer unchanged and any number of writes is identical '
+              '(C20_repeated_writes_identical). The three formerly failing configurations are regression theorems and fixed known findings '
+              '(F9-F11) replayed on every run. The model is tied to the source by token-for-token comparison with the files the '
+              'implementation writes; the Coq reader and consistency check are also run on those files.')
 TECHNIQUE = 'Coq proof over a hand model (lists/nat/Z, opaque exact-rational value tokens) + vm_compute correspondence on real .vtk files'
 GEN = []
 TARGETS = ['model/M_C20.vo', 'proofs/L_C20.vo', 'proofs/L_C20w.vo']
@@ -32,7 +31,7 @@ TRUSTED = ['Coq 8.16.1 kernel + vm_compute (no native_compute)',
            'names are mapped to ids; supplied numpy scalars are mapped to their exact value',
            'the legacy-VTK subset accepted by the Coq reader (ASCII, UNSTRUCTURED_GRID, POINT_DATA before CELL_DATA, '
            'SCALARS with LOOKUP_TABLE default / VECTORS / TENSORS) is our reading of the VTK file-format description']
-ASSUMPTIONS = ['field names are whitespace-free identifiers that are not VTK keywords; no user field is named sphere_radius when spheres exist',
+ASSUMPTIONS = ['field names are whitespace-free identifiers that are not VTK keywords; sphere_radius is a reserved key (a user field of that name is replaced when spheres exist, in the code and in the specification)',
                'the mesh is not mutated between add_* calls and write() (the model gathers coordinates/connectivity once)',
                'connectivity / contact-edge ids refer to output nodes (mesh.simplexNodesOrdinals is 0..nVertices-1, as produced by '
                'optimism.Mesh); stated as hypothesis in_range',
@@ -40,8 +39,8 @@ ASSUMPTIONS = ['field names are whitespace-free identifiers that are not VTK key
                'decimal round trip is checked on the explored files only']
 RULE = ('scenarios: structured meshes 2..4 x 2..4 of order 1..4 (order 2 and 3 also with bubble), a random sequence of add_nodal_field / '
         'add_cell_field (scalar/vector/tensor, spatial dimension 1..3, every VTKDataType label, float64/float32/int64/int32 data, '
-        'repeated names, wrong-length cell data), add_sphere, add_contact_edges and 1..3 write() calls; half of the scenarios avoid '
-        'the three known-defect conditions.  A scenario is non-trivial when it has at least one field, sphere or contact edge; '
+        'repeated names, wrong-length cell data), add_sphere, add_contact_edges and 1..3 write() calls, all combinations allowed.  '
+        'A scenario is non-trivial when it has at least one field, sphere or contact edge; '
         'distinct = distinct (mesh, operation sequence) tuples; evaluations = files written and compared')
 IMPORTS = ['From OV.model Require Import M_C20.']
 
@@ -136,25 +135,16 @@ def gen_data(seed, n, ft, dim, npdt):
     return np.array(flat, dtype=npdt).reshape(shape)
 
 
-def gen_scenario(r, clean):
-    order = r.choice([1, 1, 2, 2, 3, 4])
+def gen_scenario(r):
+    order = r.choice([1, 2, 2, 3, 3, 4])
     bubble = order in (2, 3) and r.random() < 0.3
     nx, ny = r.choice([(2, 2), (3, 2), (2, 3), (3, 3), (4, 2)])
     sc = dict(nx=nx, ny=ny, order=order, bubble=bubble, ops=[])
-    nops = r.randrange(0, 7)
-    nwrites = r.choice([1, 1, 2, 2, 3])
-    allow_sph = not (clean and order >= 3)
-    have = dict(sph=0, nodal=0, cell=0, edges=0)
-    mix = r.choice(['cell', 'edges']) if clean else 'any'
+    nops = r.randrange(0, 8)
+    nwrites = r.choice([1, 2, 2, 3])
     ops = []
     for _ in range(nops):
         kind = r.choice(['nodal', 'nodal', 'cell', 'sphere', 'edges'])
-        if kind == 'sphere' and not allow_sph:
-            kind = 'nodal'
-        if kind == 'cell' and mix == 'edges':
-            kind = 'edges'
-        if kind == 'edges' and mix == 'cell':
-            kind = 'cell'
         if kind in ('nodal', 'cell'):
             ft = r.randrange(3)
             dim = r.choice([0, 1]) if ft == 0 else r.choice([1, 2, 2, 3])
@@ -164,9 +154,8 @@ def gen_scenario(r, clean):
             op = dict(k='sphere', x=r.randrange(-16, 16) / 4.0, y=r.random(), r=r.choice([0.125, 0.3, 1.0, r.random()]))
         else:
             op = dict(k='edges', seed=r.randrange(10 ** 9), n=r.randrange(0, 4))
-        have[{'nodal': 'nodal', 'cell': 'cell', 'sphere': 'sph', 'edges': 'edges'}[kind]] += 1
         ops.append(op)
-    # place the writes: the last op is a write, the others anywhere
+    # place the writes: the last op is a write, the others anywhere (possibly adjacent: identical re-writes)
     pos = sorted(r.randrange(0, len(ops) + 1) for _ in range(nwrites - 1))
     out = []
     for i, op in enumerate(ops):
@@ -174,23 +163,6 @@ def gen_scenario(r, clean):
             out.append(dict(k='write')); pos.pop(0)
         out.append(op)
     out += [dict(k='write')] * (len(pos) + 1)
-    if clean:
-        # defect F9: no write may be followed by another write once spheres and nodal fields coexist
-        seen_s = seen_n = False
-        res, dirty = [], False
-        for op in out:
-            if op['k'] == 'write' and dirty:
-                continue
-            res.append(op)
-            seen_s |= op['k'] == 'sphere'
-            seen_n |= op['k'] == 'nodal'
-            if op['k'] == 'write' and seen_s and seen_n:
-                dirty = True
-        # nodal fields added after a first write with spheres would again be padded only once: keep simple -- stop at the dirty write
-        if dirty:
-            last = max(i for i, op in enumerate(res) if op['k'] == 'write')
-            res = res[:last + 1]
-        out = res
     sc['ops'] = out
     return sc
 
@@ -406,13 +378,12 @@ def scenario_key(sc):
 def correspondence(ctx, model_ok):
     r = ctx.rng('main')
     n = ctx.n(70, 700)
-    scenarios = [WITNESS['F9'], WITNESS['F10'], WITNESS['F11']] + [gen_scenario(r, clean=(i % 2 == 0)) for i in range(n)]
+    scenarios = [WITNESS['F9'], WITNESS['F10'], WITNESS['F11']] + [gen_scenario(r) for i in range(n)]
     nfiles = evaluate(ctx, scenarios, model_ok, 'm')
     keys = {scenario_key(s) for s in scenarios if any(op['k'] != 'write' for op in s['ops'])}
     ctx.count('evaluations', nfiles)
     ctx.count('distinct_nontrivial', len(keys))
     ctx.count('scenarios', len(scenarios))
-    ctx.count('clean_scenarios', (n + 1) // 2)
     hist = {}
     for s in scenarios:
         hist['order%d' % s['order']] = hist.get('order%d' % s['order'], 0) + 1
@@ -420,7 +391,7 @@ def correspondence(ctx, model_ok):
             hist[op['k']] = hist.get(op['k'], 0) + 1
     ctx.cov['histogram'] = hist
     ctx.sample(dict(scenario=scenarios[3]))
-    ctx.sample(dict(theorems=['C20_roundtrip_wellformed_partial', 'C20_repeated_writes_identical_partial', 'C20_double_write_refuted']))
+    ctx.sample(dict(theorems=['C20_roundtrip_wellformed', 'C20_repeated_writes_identical', 'C20_double_write_regression']))
 
 
 def search(ctx, reasons):
@@ -428,7 +399,7 @@ def search(ctx, reasons):
     c2 = copy.copy(ctx)
     c2.failures, c2.counts, c2.cov, c2.samples = [], {}, {}, []
     r = ctx.rng('search')
-    scenarios = [gen_scenario(r, clean=(i % 4 != 3)) for i in range(ctx.n(150, 600))]
+    scenarios = [gen_scenario(r) for i in range(ctx.n(150, 600))]
     model_ok = not any(x.get('kind') in ('proof', 'translator', 'hygiene') for x in reasons)
     try:
         evaluate(c2, scenarios, model_ok, 's')      # with the model: also the round-trip clause (parsed file = supplied dataset)
